@@ -35,6 +35,9 @@ FIRST = [
     (_pad("   20 call foo(a,", "12345678"), "20", "call foo(a,"),
     ("      s = 'a ! b' //", "", "s = 'a ! b' //"),
     ("      x = 1 + ! trailing comment", "", "x = 1 +"),
+    # a backslash is an ordinary character of a Fortran literal: the literal ends at the quote that follows it
+    ("      s = 'C:\\' //", "", "s = 'C:\\' //"),
+    (_pad("      s = 'a\\' //", "SEQ00030"), "", "s = 'a\\' //"),
 ]
 BETWEEN = [None, "C a comment", "c another", "* starred", "! banged", "", "      ", "C", "*     x = 9", "!     &  77"]
 # (line text, is_continuation, code)
